@@ -262,6 +262,7 @@ func runNative(name string, h func(), report bool) (outcome string) {
 		timedOut = true
 	}
 	schedDiv, pos, total := stopSchedule()
+	removeTempFiles()
 	outcome = "ok"
 	switch {
 	case len(Diverged()) > 0:
@@ -442,5 +443,23 @@ func TempFile(content string) string {
 	}
 	f.WriteString(content)
 	f.Close()
+	tempMu.Lock()
+	tempFiles = append(tempFiles, f.Name())
+	tempMu.Unlock()
 	return f.Name()
+}
+
+var (
+	tempMu    sync.Mutex
+	tempFiles []string
+)
+
+// removeTempFiles deletes what TempFile created during the case that just ended.
+func removeTempFiles() {
+	tempMu.Lock()
+	defer tempMu.Unlock()
+	for _, n := range tempFiles {
+		os.Remove(n)
+	}
+	tempFiles = nil
 }
